@@ -8,9 +8,12 @@ import (
 	"net"
 	"net/http"
 	"os"
+	"path/filepath"
 	"sort"
+	"strconv"
 	"strings"
 	"sync"
+	"syscall"
 	"time"
 
 	"Havoc/pkg/handlers"
@@ -45,6 +48,33 @@ var (
 
 func init() { world.RestartPort = freePort }
 
+// claimPort marks a port as this process' for as long as it lives: a port found free here is bound a moment later by the code under test,
+// and shards of checks that run at the same time look through the same ranges (a teamserver that cannot bind its operator endpoint exits).
+// The mark is a file holding the pid; a mark whose process is gone is stale
+func claimPort(p int) bool {
+	dir := filepath.Join(os.TempDir(), "vcheck-ports")
+	os.MkdirAll(dir, 0o777)
+	f := filepath.Join(dir, fmt.Sprint(p))
+	for try := 0; try < 2; try++ {
+		fd, err := os.OpenFile(f, os.O_CREATE|os.O_EXCL|os.O_WRONLY, 0o666)
+		if err == nil {
+			fmt.Fprint(fd, os.Getpid())
+			fd.Close()
+			return true
+		}
+		b, _ := os.ReadFile(f)
+		pid, _ := strconv.Atoi(strings.TrimSpace(string(b)))
+		if pid <= 0 || pid == os.Getpid() {
+			return false // being written by its owner, or handed out by this process before
+		}
+		if syscall.Kill(pid, 0) == nil {
+			return false // its owner lives
+		}
+		os.Remove(f)
+	}
+	return false
+}
+
 func freePort() string {
 	if portBase == 0 {
 		// one private range per shard, below the ephemeral port range (a probe dialling a free port
@@ -66,6 +96,9 @@ func freePort() string {
 		l.Close()
 		if l2, err := net.Listen("tcp", fmt.Sprintf("0.0.0.0:%d", p)); err == nil {
 			l2.Close()
+			if !claimPort(p) {
+				continue
+			}
 			return fmt.Sprint(p)
 		}
 	}
